@@ -11,7 +11,7 @@ C16 fix commits).  `NP r` = "`r` is not a panic of any kind": no arithmetic over
 The hypothesis on the input is `bs.length < I32LIM = 2^31` (**inputs below 2 GiB**): the container walks
 `container_next` / `container_value_len` count the nesting in an **`i32`** (`let mut level = 1`, read.rs), and
 with 2^31 nested container-start bytes that counter overflows — a panic in an overflow-checks build, a
-wrap-around in release (`level_overflow_reachable` below shows the panic at the step level).  Below 2^31
+wrap-around in release (`level_overflow_reachable` below: the panic on every input of ≥ 2^31 structure starts).  Below 2^31
 bytes the counter cannot get there, because every container start consumes at least one byte
 (`skipLoop_np`, `cvlLoop_np`).  Matter messages are ≤ 1280 bytes (≤ 1 MB over TCP with large buffers).
 `len < 2^31` implies the `len + 1 < 2^64` that every Rust slice satisfies (`usize_of_i32lim`).
@@ -90,14 +90,27 @@ theorem no_panic_extra (bs : Bytes) (h : bs.length < I32LIM) :
 example : fmtOf 6 [0x15, 0x24, 0x01, 0x05, 0x18] = .ok () ∧ fmtOf 2 [0x18] = .err .mismatch ∧
     fmtOf 4 [0x15, 0x24, 0x01] = .err .mismatch := by decide
 
-/-- **The bound is needed in the model**: at `level = i32::MAX` one more container start overflows the
-`i32` counter (debug / overflow-checks build: `attempt to add with overflow`), for every tag form and
-container kind; one below it, and at every smaller positive level, the step does not panic.  Reaching that
-level takes 2^31 − 1 nested container-start bytes, which `len < 2^31` excludes. -/
-theorem level_overflow_reachable (tt : TagType) (k : Kind) :
+/-- one step of the counter: at `level = i32::MAX` one more container start overflows the `i32`
+(debug / overflow-checks build: `attempt to add with overflow`), for every tag form and container kind; at
+every smaller positive level the step does not panic.  (A one-step fact; the whole run is the next theorem.) -/
+theorem level_step_overflows_at_max (tt : TagType) (k : Kind) :
     levelStep ⟨tt, .cont k⟩ (I32LIM - 1) = .panic .overflow ∧
     (∀ l, 1 ≤ l → l + 1 < I32LIM → NP (levelStep ⟨tt, .cont k⟩ l)) :=
   ⟨levelStep_overflow tt k, fun l h1 h2 => levelStep_np _ l h1 h2⟩
+
+/-- **The bound is needed in the model — whole-run witness.**  On EVERY input that consists of at least 2^31
+anonymous structure-start bytes (`0x15`), `container_next` — and with it the first `next()` of the element
+iterator over such a sequence — panics with the `i32` overflow of `level`.  Proved symbolically by the loop
+lemma `skipLoop_opens` (after `k` structure starts the level is `1 + k`, for every `k` that fits), no 2-GiB
+list is evaluated.  So `no_panic_seq` is false without a length bound, and `len < 2^31` is the weakest bound of
+the form `len < B` for which it holds. -/
+theorem level_overflow_reachable (bs : Bytes) (hall : ∀ b ∈ bs, b = 0x15) (hlen : I32LIM ≤ bs.length) :
+    containerNext bs = .panic .overflow ∧ iterNext bs = (some (.panic .overflow), []) :=
+  ⟨containerNext_overflow bs hall hlen, iterNext_overflow bs hall hlen⟩
+
+-- the hypotheses are satisfiable (by a list nobody has to build) and contradict the bound of `no_panic_seq`
+example : ∃ bs : Bytes, (∀ b ∈ bs, b = 0x15) ∧ I32LIM ≤ bs.length ∧ ¬ bs.length < I32LIM :=
+  ⟨List.replicate I32LIM 0x15, fun _ h => (List.mem_replicate.mp h).2, by simp, by simp⟩
 
 /-- the bound of the theorems is weaker than what every Rust slice satisfies, and not vacuous -/
 theorem bound_implies_slice (n : Nat) (h : n < I32LIM) : n + 1 < USIZE := usize_of_i32lim h
